@@ -298,6 +298,17 @@ def rule5_workers(ctx, fl):
     f = ctx.need_fn(v, 'myth_init_ex_body_really')
     nwl = [l for l in f.order if l.op == 'load' and 'n_workers' in f.ap(l.ops[0]).desc()]
     ctx.ob('C15.5', 'reads n_workers', len(nwl) >= 1, 'worker count taken from the global attributes', loc=f.loc)
+    # an explicit attribute object is adopted on every initialisation, not only on the first
+    ap_ = f.param_named('attr') or 'a0'
+    cps = [c for c in f.calls() if (c.callee or '').startswith('llvm.memcpy') and isinstance(f.ap(c.args[0]).root, dict) and
+           f.ap(c.args[0]).root.get('g') == 'g_attr' and same_value(f, c.args[1], ap_)]
+    nulls = [lib.first_inst(f, nl) for br, nn, nl in lib.null_tests(f, ap_)]
+    ctx.ob('C15.5', 'explicit attributes copied into g_attr', len(cps) == 1, 'g_attr = *attr', loc=f.loc)
+    if cps and nwl:
+        ctx.ob('C15.5', 'a non-NULL attribute object is adopted on every initialisation',
+               f.always_passes(f.entry_inst(), cps + nulls, to=nwl),
+               'every path to the worker count either copies *attr or saw attr == NULL; a copy that depends on earlier state makes a '
+               'second myth_init_ex(&attr) run with the previous settings', loc=cps[0].loc)
     mall = [c for c in call_sites(f, 'myth_malloc') if any(x.op == 'store' and isinstance(x.ops[1], dict) and x.ops[1].get('g') == 'g_envs' and
                                                             c.id in f.sources(x.ops[0]) for x in f.order)]
     envsz = v.structs.get('myth_running_env', {}).get('size')
@@ -396,10 +407,58 @@ def rule6_progress(ctx, fl):
     ctx.floor('C15.6', 20)
 
 
+def env_paths(f, store):
+    out = {}
+    for ins in f.order:
+        if store:
+            if ins.op == 'store':
+                ptr = ins.ops[1]
+            elif ins.op == 'call' and (ins.callee or '').startswith(('llvm.memset', 'llvm.memcpy')):
+                ptr = ins.args[0]
+            else:
+                continue
+        else:
+            if ins.op != 'load':
+                continue
+            ptr = ins.ops[0]
+        fs = f.ap(ptr).fields
+        if fs and fs[0].startswith('myth_running_env.'):
+            out.setdefault(tuple(fs), ins)
+    return out
+
+
+def rule7_worker_record(ctx, fl):
+    ctx.doc('C15.7', 'a fresh initialisation does not depend on what a previous one left behind: every field of the per-worker record '
+            '(g_envs[] comes from malloc and is recycled across init / fini / init histories) that the scheduler loop or the exit path '
+            'reads is written on the start-up path of a secondary worker (myth_worker_thread_fn) and on that of worker 0 '
+            '(myth_startpoint_init_ex_body), setup_worker inlined in both')
+    starts = ['myth_worker_thread_fn', 'myth_startpoint_init_ex_body']
+    users = ['myth_sched_loop', 'myth_startpoint_exit_ex_body']
+    v = ctx.view(INITF, roots=starts + users,
+                 stops=('myth_malloc', 'myth_free', 'myth_flmalloc', 'myth_flfree', 'fprintf', 'abort', 'myth_mmap', 'myth_queue_push',
+                        'myth_queue_pop', 'myth_queue_take', 'time', 'myth_random_init', 'myth_get_current_env') + lib.SPIN_STOPS, flavour=fl)
+    reads = {}
+    for u in users:
+        for pth, ins in env_paths(ctx.need_fn(v, u), False).items():
+            reads.setdefault(pth, (u, ins))
+    ctx.ob('C15.7', 'fields of the worker record read by the scheduler enumerated', len(reads) >= 6, 'exit_flag, rank, run queue, free lists, ...',
+           loc='src/myth_worker_func.h', detail=str(len(reads)))
+    for st_ in starts:
+        f = ctx.need_fn(v, st_)
+        w = env_paths(f, True)
+        for pth, (u, ins) in sorted(reads.items()):
+            short = '.'.join(x.split('.', 1)[-1] for x in pth)
+            ctx.ob('C15.7', '%s sets %s' % (st_, short), any(pth[:len(x)] == x for x in w),
+                   'the record array is recycled heap memory: a field the start-up path skips keeps the value of the previous run (e.g. '
+                   'a raised exit flag makes the new worker leave its scheduler at once)', loc=f.loc, detail='read by %s at %s' % (u, ins.loc))
+    ctx.floor('C15.7', 14)
+
+
 def run(ctx):
     for fl in flavours(ctx):
         ctx.unit = fl
         rule6_progress(ctx, fl)
+        rule7_worker_record(ctx, fl)
         rule1_init(ctx, fl)
         rule2_noabort(ctx, fl)
         rule3_bounds(ctx, fl)
@@ -411,6 +470,11 @@ INITC = 'src/myth_init.c'
 BIND = 'src/myth_bind_worker.c'
 INITH = 'src/myth_init_func.h'
 MUTANTS = [
+    {'name': 'explicit attributes adopted only while g_attr is uninitialised (seed2 C15/m2)', 'expect': 'C15.5',
+     'edits': [(INITC, "  if (attr) {\n    g_attr = *attr;\n  } else {\n    if (!g_attr.initialized) myth_globalattr_init_body(&g_attr);\n  }",
+                "  if (!g_attr.initialized) {\n    if (attr) {\n      g_attr = *attr;\n    } else {\n      myth_globalattr_init_body(&g_attr);\n    }\n  }")]},
+    {'name': 'setup_worker leaves the exit flag of the previous run (seed2 C15/m1)', 'expect': 'C15.7',
+     'edits': [('src/myth_worker_func.h', "  env->rank = rank;\n  env->exit_flag = 0;\n", "  env->rank = rank;\n")]},
     {'name': 'real initialisation outside the election', 'expect': 'C15.1',
      'edits': [(INITC, "  if (!myth_init_once_ctl_try_set(&g_myth_init_state,\n\t\t\t\t  myth_init_state_uninit,\n\t\t\t\t  myth_init_state_initializing)) {\n    myth_init_once_ctl_wait(&g_myth_init_state, myth_init_state_initialized);\n    return 1;\t\t\t/* OK */\n  }",
                 "  if (g_myth_init_state != myth_init_state_uninit) {\n    myth_init_once_ctl_wait(&g_myth_init_state, myth_init_state_initialized);\n    return 1;\t\t\t/* OK */\n  }\n  g_myth_init_state = myth_init_state_initializing;")]},
